@@ -13,6 +13,14 @@ pub(crate) fn paused_manager() -> PlaybackStateManager {
     PlaybackStateManager { state: State::Paused, volume_fade: make(PView::Idle(Decibels::SILENCE), Decibels::SILENCE, Decibels::SILENCE, true) }
 }
 
+/// A state machine that is WaitingToResume (what `resume_at(start_time)` on a paused machine produces: C03.1b): the fade still rests at -60 dB.
+pub(crate) fn waiting_manager(start_time: StartTime) -> PlaybackStateManager {
+    PlaybackStateManager {
+        state: State::WaitingToResume { start_time, fade_in_tween: Tween { start_time: StartTime::Immediate, duration: Duration::ZERO, easing: Easing::Linear } },
+        volume_fade: make(PView::Idle(Decibels::SILENCE), Decibels::SILENCE, Decibels::SILENCE, true),
+    }
+}
+
 fn small_duration() -> Duration {
     let s: u64 = kani::any();
     kani::assume(s <= 100);
